@@ -182,8 +182,9 @@ def discharge(ob: Obligation, collect_functions=True):
                     lst.append(dict(facet=n, model=_model_values(m, ctx), notes=[x for x in ctx.notes if x.startswith(n)][:1]))
             # ---- concolic validation of this path --------------------------------------------------
             if ob.validate_every and (res["paths"] - 1) % ob.validate_every == 0:
+                interior = False
                 try:
-                    m = E.get_model()
+                    m, interior = E.interior_model()
                 except PathAbort as e:
                     res["inconclusive"].append("validation: %s" % e)
                     m = None
@@ -212,8 +213,19 @@ def discharge(ob: Obligation, collect_functions=True):
                         for n in proved_names:
                             if n not in cf:
                                 _mm(res, "facet %s proved symbolically but absent in the concrete run (inputs %s)" % (n, vals))
+                            elif cf[n] is not True and interior:
+                                # exact-real proof, but the float64 run of the same path model violates the facet (dtype- or
+                                # rounding-dependent behaviour): a candidate like any other, decided by the unhooked replay
+                                lst = cand_per_facet.setdefault(n, [])
+                                if len(lst) < 3:
+                                    lst.append(dict(facet=n, model=vals, origin="concolic", notes=[x for x in cctx.notes if x.startswith(n)][:1]))
                             elif cf[n] is not True:
-                                _mm(res, "facet %s proved symbolically but false concretely (inputs %s)" % (n, vals))
+                                _mm(res, "facet %s proved symbolically but false in the float64 run of a boundary (tie) model (inputs %s)" % (n, vals))
+                        for n, c in cctx.facets:
+                            if c is not True and interior and n not in dict(ctx.facets):
+                                lst = cand_per_facet.setdefault(n, [])
+                                if len(lst) < 3:
+                                    lst.append(dict(facet=n, model=vals, origin="concolic", notes=[x for x in cctx.notes if x.startswith(n)][:1]))
                         co = dict(cctx.obs)
                         for n, x in ctx.obs:
                             if n in co and not _close(_sym_value(m, x), co[n]):
